@@ -40,7 +40,7 @@ pub struct Program {
     pub ty: String,
     pub ops: Vec<Op>,
 }
-pub const TYPES: [&str; 10] = ["Arithmetic<f64>", "Arithmetic<f32>", "Geometric<f64>", "Geometric<f32>", "Harmonic<f64>", "Harmonic<f32>", "Paired<f64>", "Unpaired<f64>", "proportion::Stats", "quantile::Stats"];
+pub const TYPES: [&str; 12] = ["Arithmetic<f64>", "Arithmetic<f32>", "Geometric<f64>", "Geometric<f32>", "Harmonic<f64>", "Harmonic<f32>", "Paired<f64>", "Unpaired<f64>", "proportion::Stats", "quantile::Stats", "Paired<f32>", "Unpaired<f32>"];
 
 pub trait Acc: Sized + Clone + std::fmt::Debug + Send + Sync {
     fn new() -> Self;
@@ -246,20 +246,20 @@ impl_arith_like!(AGeo, Geometric, "geometric", |x| x.ln(), true);
 impl_arith_like!(AHar, Harmonic, "harmonic", |x| F::one() / x, true);
 
 #[derive(Clone, Debug)]
-pub struct APaired(pub Paired<f64>);
-impl Acc for APaired {
+pub struct APaired<F: Fl>(pub Paired<F>);
+impl<F: Fl> Acc for APaired<F> {
     fn new() -> Self {
         APaired(Paired::default())
     }
     fn append(&mut self, it: &Item) -> Result<(), String> {
-        self.0.append_pair(it.x.0, it.y.0).map_err(es)
+        self.0.append_pair(F::from64(it.x.0), F::from64(it.y.0)).map_err(es)
     }
     fn extend(&mut self, its: &[Item]) -> Result<(), String> {
         if its.len() % 2 == 0 {
-            let (a, b): (Vec<f64>, Vec<f64>) = its.iter().map(|i| (i.x.0, i.y.0)).unzip();
+            let (a, b): (Vec<F>, Vec<F>) = its.iter().map(|i| (F::from64(i.x.0), F::from64(i.y.0))).unzip();
             self.0.extend(&a, &b).map_err(es)
         } else {
-            let t: Vec<(f64, f64)> = its.iter().map(|i| (i.x.0, i.y.0)).collect();
+            let t: Vec<(F, F)> = its.iter().map(|i| (F::from64(i.x.0), F::from64(i.y.0))).collect();
             self.0.extend_tuple(&t).map_err(es)
         }
     }
@@ -280,34 +280,34 @@ impl Acc for APaired {
     fn observe(&self, conf: &Conf, _q: f64) -> Vec<f64> {
         let mut v = vec![self.0.sample_count() as f64];
         if self.0.sample_count() >= 2 {
-            v.push(self.0.sample_mean());
-            v.push(self.0.sample_sem());
+            v.push(self.0.sample_mean().to64());
+            v.push(self.0.sample_sem().to64());
             v.extend(enc(call(|| self.0.ci_mean(conf.get()))));
         }
         v
     }
     fn check(&self, model: &[Item], depth: u32, conf: &Conf, _q: f64, ty: &str, obs: &mut Obs) -> PResult {
-        let d: Vec<f64> = model.iter().map(|i| i.x.0 - i.y.0).collect();
-        check_mean_state::<f64>("paired", ty, &d, self.0.sample_count(), if d.len() >= 2 { self.0.sample_mean() } else { 0.0 }, None, call(|| self.0.ci_mean(conf.get())), conf, depth, obs)
+        let d: Vec<f64> = model.iter().map(|i| (F::from64(i.x.0) - F::from64(i.y.0)).to64()).collect();
+        check_mean_state::<F>("paired", ty, &d, self.0.sample_count(), if d.len() >= 2 { self.0.sample_mean().to64() } else { 0.0 }, None, call(|| self.0.ci_mean(conf.get())), conf, depth, obs)
     }
 }
 
 #[derive(Clone, Debug)]
-pub struct AUnpaired(pub Unpaired<f64>);
-impl Acc for AUnpaired {
+pub struct AUnpaired<F: Fl>(pub Unpaired<F>);
+impl<F: Fl> Acc for AUnpaired<F> {
     fn new() -> Self {
         AUnpaired(Unpaired::default())
     }
     fn append(&mut self, it: &Item) -> Result<(), String> {
         if it.flag {
-            self.0.append_a(it.x.0).map_err(es)
+            self.0.append_a(F::from64(it.x.0)).map_err(es)
         } else {
-            self.0.append_b(it.x.0).map_err(es)
+            self.0.append_b(F::from64(it.x.0)).map_err(es)
         }
     }
     fn extend(&mut self, its: &[Item]) -> Result<(), String> {
-        let a: Vec<f64> = its.iter().filter(|i| i.flag).map(|i| i.x.0).collect();
-        let b: Vec<f64> = its.iter().filter(|i| !i.flag).map(|i| i.x.0).collect();
+        let a: Vec<F> = its.iter().filter(|i| i.flag).map(|i| F::from64(i.x.0)).collect();
+        let b: Vec<F> = its.iter().filter(|i| !i.flag).map(|i| F::from64(i.x.0)).collect();
         if its.len() % 2 == 0 {
             self.0.extend(&a, &b).map_err(es)
         } else {
@@ -316,8 +316,8 @@ impl Acc for AUnpaired {
         }
     }
     fn from_items(its: &[Item]) -> Result<Self, String> {
-        let a: Vec<f64> = its.iter().filter(|i| i.flag).map(|i| i.x.0).collect();
-        let b: Vec<f64> = its.iter().filter(|i| !i.flag).map(|i| i.x.0).collect();
+        let a: Vec<F> = its.iter().filter(|i| i.flag).map(|i| F::from64(i.x.0)).collect();
+        let b: Vec<F> = its.iter().filter(|i| !i.flag).map(|i| F::from64(i.x.0)).collect();
         Unpaired::from_iter(&a, &b).map(AUnpaired).map_err(es)
     }
     fn plus(a: &Self, b: &Self) -> Self {
@@ -336,8 +336,8 @@ impl Acc for AUnpaired {
         let (sa, sb) = (self.0.stats_a(), self.0.stats_b());
         let mut v = vec![sa.sample_count() as f64, sb.sample_count() as f64];
         if sa.sample_count() >= 2 && sb.sample_count() >= 2 {
-            v.push(sa.sample_mean());
-            v.push(sb.sample_mean());
+            v.push(sa.sample_mean().to64());
+            v.push(sb.sample_mean().to64());
             v.extend(enc(call(|| self.0.ci_mean(conf.get()))));
         }
         v
@@ -352,13 +352,13 @@ impl Acc for AUnpaired {
         }
         let (ra, rb) = (MeanRef::new(&a), MeanRef::new(&b));
         for (name, s, r) in [("a", sa, &ra), ("b", sb, &rb)] {
-            if r.conditioned::<f64>(depth) {
-                let e = (s.sample_mean() - r.mean).abs();
-                let t = 2.0 * r.tol_mean::<f64>(depth);
-                ensure!(e <= t, "C09/unpaired/mean", "{ty}: mean of sample {name} {:e} vs exact {:e} (err {e:e} > tol {t:e})", s.sample_mean(), r.mean);
-                let e = (s.sample_variance() - r.var).abs();
-                let t = 2.0 * r.tol_var::<f64>(depth) + 2.0 * f64::EPSILON * r.var;
-                ensure!(e <= t, "C09/unpaired/variance", "{ty}: variance of sample {name} {:e} vs exact {:e} (err {e:e} > tol {t:e})", s.sample_variance(), r.var);
+            if r.conditioned::<F>(depth) {
+                let e = (s.sample_mean().to64() - r.mean).abs();
+                let t = 2.0 * r.tol_mean::<F>(depth);
+                ensure!(e <= t, "C09/unpaired/mean", "{ty}: mean of sample {name} {:e} vs exact {:e} (err {e:e} > tol {t:e})", s.sample_mean().to64(), r.mean);
+                let e = (s.sample_variance().to64() - r.var).abs();
+                let t = 2.0 * r.tol_var::<F>(depth) + 2.0 * F::U * r.var;
+                ensure!(e <= t, "C09/unpaired/variance", "{ty}: variance of sample {name} {:e} vs exact {:e} (err {e:e} > tol {t:e})", s.sample_variance().to64(), r.var);
             }
         }
         let i = match call(|| self.0.ci_mean(conf.get())) {
@@ -367,8 +367,8 @@ impl Acc for AUnpaired {
         };
         let (k, lo, hi) = bounds(&i);
         ensure!(k == conf.kind && !lo.is_nan() && !hi.is_nan() && lo <= hi, "C09/unpaired/malformed", "{ty}: {i:?} for {conf:?}");
-        if ra.conditioned::<f64>(depth) && rb.conditioned::<f64>(depth) {
-            if let Some(r) = unpaired_ref::<f64>(&ra, &rb, conf) {
+        if ra.conditioned::<F>(depth) && rb.conditioned::<F>(depth) {
+            if let Some(r) = unpaired_ref::<F>(&ra, &rb, conf) {
                 let tol = r.tol * (1.0 + depth as f64 * 0.5);
                 for (g, e, finite) in [(lo, r.diff - r.c * r.se, k != 2), (hi, r.diff + r.c * r.se, k != 1)] {
                     if finite {
@@ -676,8 +676,10 @@ pub fn program_case(p: &Program, obs: &mut Obs) -> PResult {
         "Geometric<f32>" => interpret::<AGeo<f32>>(p, obs),
         "Harmonic<f64>" => interpret::<AHar<f64>>(p, obs),
         "Harmonic<f32>" => interpret::<AHar<f32>>(p, obs),
-        "Paired<f64>" => interpret::<APaired>(p, obs),
-        "Unpaired<f64>" => interpret::<AUnpaired>(p, obs),
+        "Paired<f64>" => interpret::<APaired<f64>>(p, obs),
+        "Paired<f32>" => interpret::<APaired<f32>>(p, obs),
+        "Unpaired<f64>" => interpret::<AUnpaired<f64>>(p, obs),
+        "Unpaired<f32>" => interpret::<AUnpaired<f32>>(p, obs),
         "proportion::Stats" => interpret::<AProp>(p, obs),
         "quantile::Stats" => interpret::<AQuant>(p, obs),
         t => crate::engine::fail("INFRA/harness_panic", format!("unknown type {t}")),
@@ -687,7 +689,7 @@ pub fn program_case(p: &Program, obs: &mut Obs) -> PResult {
 // generators ------------------------------------------------------------------------------------------
 
 fn item(ty_idx: usize) -> impl Strategy<Value = Item> {
-    let f32_ = matches!(ty_idx, 1 | 3 | 5);
+    let f32_ = matches!(ty_idx, 1 | 3 | 5 | 10 | 11);
     let positive = matches!(ty_idx, 2 | 3 | 4 | 5);
     (0u32..4, -(1i32 << 16)..=(1i32 << 16), -(1i32 << 16)..=(1i32 << 16), any::<bool>()).prop_map(move |(kc, a, b, flag)| {
         let kappa: f64 = [0.0, 1.0, 8.0, 100.0][kc as usize];
@@ -792,8 +794,10 @@ pub fn tree_case(c: &TreeCase, obs: &mut Obs) -> PResult {
         "Arithmetic<f32>" => go::<AArith<f32>>(c, obs),
         "Geometric<f64>" => go::<AGeo<f64>>(c, obs),
         "Harmonic<f32>" => go::<AHar<f32>>(c, obs),
-        "Paired<f64>" => go::<APaired>(c, obs),
-        "Unpaired<f64>" => go::<AUnpaired>(c, obs),
+        "Paired<f64>" => go::<APaired<f64>>(c, obs),
+        "Paired<f32>" => go::<APaired<f32>>(c, obs),
+        "Unpaired<f64>" => go::<AUnpaired<f64>>(c, obs),
+        "Unpaired<f32>" => go::<AUnpaired<f32>>(c, obs),
         "proportion::Stats" => go::<AProp>(c, obs),
         "quantile::Stats" => go::<AQuant>(c, obs),
         t => crate::engine::fail("INFRA/harness_panic", format!("unknown type {t}")),
@@ -855,7 +859,7 @@ pub fn par_case(c: &ParCase, obs: &mut Obs) -> PResult {
 
 pub fn run(run: &mut Run) {
     run.technique = "model-based (stateful) property testing: proptest-generated programs over a register file interpreted on the real types and on a multiset model with exact statistics; exhaustive enumeration of all binary merge trees over <= 6 chunks; real rayon / thread reductions".into();
-    run.rule = "programs of up to 40 ops over {New, Append, Extend, FromIter, Copy, Add, AddAssign, Query} on 4 slots for 10 state types; after every step the count equals the model's, at every query mean / variance / CI are within the rounding tolerance of the exact statistics of the model multiset (proportion / quantile states: equal to the component-wise sums, ci bit-identical), queries leave every Debug image unchanged and repeat identically, an empty operand is neutral; all 65 merge-tree shapes over 1..6 chunks x 3 chunkings (with empty chunks) x both operand orders; rayon and thread-scope reductions with 1, 2, 7, 16 threads; non-trivial = a program with a merge of two multi-element states, a merge with an empty operand, or a query between updates".into();
+    run.rule = "programs of up to 40 ops over {New, Append, Extend, FromIter, Copy, Add, AddAssign, Query} on 4 slots for 12 state types; after every step the count equals the model's, at every query mean / variance / CI are within the rounding tolerance of the exact statistics of the model multiset (proportion / quantile states: equal to the component-wise sums, ci bit-identical), queries leave every Debug image unchanged and repeat identically, an empty operand is neutral; all 65 merge-tree shapes over 1..6 chunks x 3 chunkings (with empty chunks) x both operand orders; rayon and thread-scope reductions with 1, 2, 7, 16 threads; non-trivial = a program with a merge of two multi-element states, a merge with an empty operand, or a query between updates".into();
     crate::meanref::selftest_into(run);
     let (cases, shards, max_ops) = match run.tier {
         crate::engine::Tier::Quick => (30_000u32, 32usize, 40usize),
@@ -866,7 +870,7 @@ pub fn run(run: &mut Run) {
         crate::engine::prop_on(obs, "program", cases / shards as u32, crate::engine::mix(seed, "shard", shard as u64), program(max_ops), program_case);
     });
     // all merge trees
-    let tree_types = ["Arithmetic<f64>", "Arithmetic<f32>", "Geometric<f64>", "Harmonic<f32>", "Paired<f64>", "Unpaired<f64>", "proportion::Stats", "quantile::Stats"];
+    let tree_types = ["Arithmetic<f64>", "Arithmetic<f32>", "Geometric<f64>", "Harmonic<f32>", "Paired<f64>", "Paired<f32>", "Unpaired<f64>", "Unpaired<f32>", "proportion::Stats", "quantile::Stats"];
     let mut jobs: Vec<TreeCase> = vec![];
     for (ti, ty) in tree_types.iter().enumerate() {
         let ty_idx = TYPES.iter().position(|t| t == ty).unwrap();
@@ -905,7 +909,7 @@ pub fn run(run: &mut Run) {
     run.par(jobs.len(), |j, obs| {
         crate::engine::case_on(obs, "tree", &jobs_ref[j], tree_case);
     });
-    run.exhaustive_parts.push("all binary merge-tree shapes over 1..6 chunks (1+1+2+5+14+42 = 65) x 3 chunkings x 2 operand orders x 8 state types".into());
+    run.exhaustive_parts.push("all binary merge-tree shapes over 1..6 chunks (1+1+2+5+14+42 = 65) x 3 chunkings x 2 operand orders x 10 state types".into());
     // parallel reductions
     let n_par = run.tier.pick(20_000usize, 300_000);
     let mut pj = vec![];
